@@ -96,7 +96,8 @@ Print Assumptions trailing_skip_sound.
     opcode, wherever a call that may allocate (= may collect) is reached, (a) the VM's local stack top is at or below the top
     published in the context, so the marker's scan of the stack (the slots below the published top) covers every live
     operand, and no slot into which the opcode has stored a heap value (neither an immediate nor a registered local) lies at
-    or above the published top (no lost root), and (b) the published top is at or below the end of the slots written under the frame protocol,
+    or above the published top, and every stack slot whose value is handed to the allocating callee lies below the published
+    top (no lost root), and (b) the published top is at or below the end of the slots written under the frame protocol,
     so the marker scans no word left behind by an earlier call frame (no stale root: the sexp_raise defect); (c) every exit of
     every opcode re-establishes the condition assumed at the start of every opcode *)
 Theorem alloc_ops_publish_top : forallb VmTop.seg_ok C02_VmTop.vm_segments = true.
@@ -105,7 +106,8 @@ Print Assumptions alloc_ops_publish_top.
 
 (** the checker behind it is sound for the WHOLE item language (branches, loops with break / continue, nested switches):
     for every big-step execution of a piece of code on a configuration (local top, published top, written end) described by
-    the abstract state, an accepted piece never runs an allocating call with top > published, fresh end > published or published > written end, and
+    the abstract state, an accepted piece never runs an allocating call with top > published, fresh end > published, an argument slot at or above
+    the published top, or published > written end, and
     the computed fall-through / break states describe the resulting configurations; configurations at which the opcode ends
     satisfy the entry condition *)
 Theorem vm_top_checker_sound : forall l c o s,
